@@ -292,6 +292,12 @@ def check_other_arithmetic(ctx: Ctx):
 
 
 def check(ctx: Ctx):
+    from .labelenum import check_label_enumeration
+
+    try:
+        check_label_enumeration(ctx)
+    except (Undecided, AnchorMissing) as e:
+        ctx.undecided("R09.6", None, None, "R09.6:check_label_enumeration", f"{type(e).__name__}: {e}")
     check_codec_width(ctx)
     check_codec_width_relational(ctx)
     check_crop_width(ctx)
@@ -324,7 +330,14 @@ def check(ctx: Ctx):
 _F = "panoptica/_functionals.py"
 _M = "panoptica/instance_matcher.py"
 
+_NU = "panoptica/utils/numpy_utils.py"
+
 VARIANTS = [
+    Variant("C09-m-unique-histogram-drops-max", "R09.6", "mutant", [(_NU, "    return np.unique(arr[arr != 0])\n\n\ndef _count_unique_without_zeros", "    if arr.dtype in (np.uint8, np.uint16):\n        n_values = np.iinfo(arr.dtype).max\n        counts = np.bincount(arr.ravel(), minlength=n_values)\n        return (np.flatnonzero(counts[1:n_values]) + 1).astype(arr.dtype)\n\n    return np.unique(arr[arr != 0])\n\n\ndef _count_unique_without_zeros")], control=True),
+    Variant("C09-m-unique-keeps-zero", "R09.6", "mutant", [(_NU, "    return np.unique(arr[arr != 0])\n\n\ndef _count_unique_without_zeros", "    return np.unique(arr)\n\n\ndef _count_unique_without_zeros")]),
+    Variant("C09-m-count-minus-one", "R09.6", "mutant-undecided", [(_NU, "    return len(_unique_without_zeros(arr))", "    return len(np.unique(arr)) - 1")]),
+    Variant("C09-t-unique-histogram", "R09.6", "twin", [(_NU, "    return np.unique(arr[arr != 0])\n\n\ndef _count_unique_without_zeros", "    if arr.dtype in (np.uint8, np.uint16):\n        counts = np.bincount(arr.ravel())\n        return (np.flatnonzero(counts[1:]) + 1).astype(arr.dtype)\n\n    return np.unique(arr[arr != 0])\n\n\ndef _count_unique_without_zeros")]),
+    Variant("C09-t-unique-filter-after", "R09.6", "twin", [(_NU, "    return np.unique(arr[arr != 0])\n\n\ndef _count_unique_without_zeros", "    values = np.unique(arr)\n    return values[values != 0]\n\n\ndef _count_unique_without_zeros")]),
     Variant("C09-m-d4", "R09.1", "mutant", [(_F, "    overlap_arr = prediction_arr.astype(np.uint64)", "    overlap_arr = prediction_arr.astype(np.uint32)")], control=True, note="defect D4 of the original tree"),
     Variant("C09-m-codec-uint16", "R09.1", "mutant", [(_F, "    overlap_arr = prediction_arr.astype(np.uint64)", "    overlap_arr = prediction_arr.astype(np.uint16)")]),
     Variant("C09-m-codec-no-widen", "R09.1", "mutant", [(_F, "    overlap_arr = prediction_arr.astype(np.uint64)", "    overlap_arr = prediction_arr.copy()")]),
